@@ -530,6 +530,7 @@ structure DaIn where
   authzOk : Bool         -- db.GetAuthorization succeeded
   authzMissing : Bool    -- … it failed because no such authorization exists (only read when authzOk = false)
   authzOtherAccount : Bool -- the loaded authorization belongs to another account than the challenge (fix 365cae8)
+  authzNotOwn : Bool     -- the loaded authorization lists challenges and this one is not among them (fix e055659)
   jsonOk : Bool          -- json.Unmarshal(payload)
   errField : Bool        -- payload.error ≠ ""
   b64Ok : Bool           -- base64url decoding of attObj
@@ -590,6 +591,7 @@ def daCore (h : Hash) (dbOk : Bool) (ch : Ch) (i : DaIn) : M Outcome :=
 def deviceAttest01Validate (h : Hash) (dbOk : Bool) (ch : Ch) (i : DaIn) : M Outcome :=
   if !i.authzOk then .val { noWrite ch .none with ret := if i.authzMissing then .notFound else .ise }
   else if i.authzOtherAccount then .val { noWrite ch .none with ret := .unauthorized }
+  else if i.authzNotOwn then .val { noWrite ch .none with ret := .unauthorized }
   else if !i.jsonOk then .val (noWrite ch .none)
   else if i.errField then .val (daBad dbOk ch .rejectedIdentifier)
   else if !i.b64Ok then .val (daBad dbOk ch .badAttestationStatement)
@@ -829,7 +831,8 @@ def worldVia (azUrl : AzUrl) : World → World
     match azUrl with
     | .missing => .attest { i with authzOk := false, authzMissing := true }
     | .foreignOther => .attest { i with authzOtherAccount := true }
-    | _ => .attest i
+    | .foreign => .attest { i with authzNotOwn := true }     -- another authorization of the same account: it has challenges of its own
+    | .own => .attest i
   | w => w
 
 /-- `api.GetChallenge`: the account must own the challenge; the JWK handed to `Validate` is the
